@@ -40,6 +40,11 @@ func ParseIgnore(text string) []IgRule {
 		if line == "" {
 			continue
 		}
+		if i := strings.Index(line, "["); i >= 0 && !strings.Contains(line[i:], "]") {
+			// a character class that is never closed: the line cannot be used, and a line that
+			// cannot be used is skipped (Pack) while the others stay in force
+			continue
+		}
 		if strings.HasSuffix(line, "/") {
 			r.Dir = true
 			line = strings.TrimRight(line, "/")
